@@ -16,7 +16,7 @@ GatesOf(p) ==
     [] p = "hdd"      -> <<"descriptor_present", "image_type", "parent_image_type">>   \* image types of every snapshot in the chain
     [] p = "vmdk-sparse" -> <<"magic", "footer_magic">>                                 \* stream-optimised extents carry a second header at the end
     [] p = "hyperv"   -> <<"header_signature", "version", "replay_log_signature", "object_table_signature", "chained_object_table_signature",
-                           "key_table_signature">>
+                           "key_table_signature", "other_key_table_signature">>   \* every listed key table: superseded copies and further tables too
     [] p = "envelope" -> <<"magic", "version", "attr_keyinfo", "attr_ciphername", "attr_keyhash", "cipher", "aead_footer_version">>
     [] p = "keystore" -> <<"mode_present", "mode_none">>
     [] p = "keysafe"  -> <<"identifier", "locator_kind", "pass2key", "phrase_cipher", "hmac">>
